@@ -193,6 +193,9 @@ func dispatchArm(j *ssa.BasicBlock, i int, p *ssa.BasicBlock) (int, bool) {
 				}
 				ns := nilnessAt(other, p)
 				if ns == 0 {
+					ns = nilnessOnEdge(other, p, j)
+				}
+				if ns == 0 {
 					return false, false
 				}
 				eq = ns == +1
@@ -490,6 +493,23 @@ func canonPhi1(ph *ssa.Phi) ssa.Value {
 		return r
 	}
 	canonPhiMemo[ph] = nil
+	if es := phiLiveEdges(ph); len(es) == 1 {
+		canonPhiMemo[ph] = es[0]
+		return es[0]
+	}
+	return nil
+}
+
+var liveEdgesMemo = map[*ssa.Phi][]ssa.Value{}
+
+// phiLiveEdges: for a phi of a dispatch block all of whose uses lie in the region of one arm, the
+// incoming values that can reach that arm (edges decided for the other arm are dead there).
+// nil when the phi is not of that kind.
+func phiLiveEdges(ph *ssa.Phi) []ssa.Value {
+	if r, ok := liveEdgesMemo[ph]; ok {
+		return r
+	}
+	liveEdgesMemo[ph] = nil
 	j := ph.Block()
 	if j == nil || j.Parent() == nil {
 		return nil
@@ -553,7 +573,7 @@ func canonPhi1(ph *ssa.Phi) ssa.Value {
 	if len(useBlocks) == 0 {
 		return nil
 	}
-	sel := -1
+	theArm := -1
 	for _, ub := range useBlocks {
 		if ub == j {
 			return nil
@@ -567,26 +587,100 @@ func canonPhi1(ph *ssa.Phi) ssa.Value {
 				arm = k
 			}
 		}
-		if arm < 0 {
+		if arm < 0 || (theArm >= 0 && theArm != arm) {
 			return nil
 		}
-		idx := -1
-		for i := range j.Preds {
-			if tg[i] < 0 || tg[i] == arm {
-				if idx >= 0 {
-					return nil
-				}
-				idx = i
-			}
-		}
-		if idx < 0 || tg[idx] < 0 {
-			return nil
-		}
-		if sel >= 0 && sel != idx {
-			return nil
-		}
-		sel = idx
+		theArm = arm
 	}
-	canonPhiMemo[ph] = ph.Edges[sel]
-	return ph.Edges[sel]
+	var out []ssa.Value
+	dead := 0
+	for i := range j.Preds {
+		if tg[i] < 0 || tg[i] == theArm {
+			out = append(out, ph.Edges[i])
+		} else {
+			dead++
+		}
+	}
+	if dead == 0 || len(out) == 0 {
+		return nil
+	}
+	liveEdgesMemo[ph] = out
+	return out
+}
+
+// phiValueIn: the value a dispatch-block phi has whenever control is in block b, when b lies in the
+// region of one arm of the dispatch and exactly one incoming edge can lead to that arm (nil otherwise).
+func phiValueIn(ph *ssa.Phi, b *ssa.BasicBlock) ssa.Value {
+	j := ph.Block()
+	if j == nil || b == nil || j.Parent() != b.Parent() || j == b {
+		return nil
+	}
+	t := threadedCFG(j.Parent())
+	tg := t.target[j]
+	if !t.changed || tg == nil {
+		return nil
+	}
+	arm := -1
+	for k, cand := range j.Succs {
+		if len(cand.Preds) == 1 && cand.Preds[0] == j && blockDominates(cand, b) {
+			if arm >= 0 {
+				return nil
+			}
+			arm = k
+		}
+	}
+	if arm < 0 {
+		return nil
+	}
+	var live ssa.Value
+	n := 0
+	for i := range j.Preds {
+		if tg[i] < 0 || tg[i] == arm {
+			live = ph.Edges[i]
+			n++
+		}
+	}
+	if n != 1 {
+		return nil
+	}
+	return live
+}
+
+// nilnessOnEdge: what p's own branch says about v on the edge p -> j (p ends in `if v == nil` and j is
+// reached over exactly one of its arms).
+func nilnessOnEdge(v ssa.Value, p, j *ssa.BasicBlock) int {
+	iff, ok := p.Instrs[len(p.Instrs)-1].(*ssa.If)
+	if !ok || p.Succs[0] == p.Succs[1] {
+		return 0
+	}
+	arm := -1
+	for k, s := range p.Succs {
+		if s == j {
+			arm = k
+		}
+	}
+	if arm < 0 {
+		return 0
+	}
+	pol := arm == 0
+	cond := iff.Cond
+	for {
+		if u, ok := cond.(*ssa.UnOp); ok && u.Op == token.NOT {
+			pol = !pol
+			cond = u.X
+			continue
+		}
+		break
+	}
+	b, ok := cond.(*ssa.BinOp)
+	if !ok || (b.Op != token.EQL && b.Op != token.NEQ) {
+		return 0
+	}
+	if !((b.X == v && isNilConst(b.Y)) || (b.Y == v && isNilConst(b.X))) {
+		return 0
+	}
+	if pol == (b.Op == token.EQL) {
+		return +1
+	}
+	return -1
 }
